@@ -151,7 +151,13 @@ type c15Closer struct {
 	upd, seq int
 }
 
-func (c *c15Closer) Close() error { c.h.closed(c.upd, c.seq); return nil }
+func (c *c15Closer) Close() error {
+	if c == nil {
+		return nil // a nil value was installed (reported through what Get returns)
+	}
+	c.h.closed(c.upd, c.seq)
+	return nil
+}
 
 type c15Plain struct{ upd, seq int }
 
